@@ -505,8 +505,15 @@ def sepB (lo hi : Nat) : List AV → List Rg → List Fate → Bool
 def extentOf (n : AV) : Nat × Nat :=
   n.cms.foldl (fun acc cg => cg.foldl (fun a c => (min a.1 c.1, max a.2 c.2)) acc) (n.pos, n.stop)
 
-/-- the declarations of a file snapshot with their regions and fates: `(decls, regions, fates)` -/
-def declsOf (old new : AV) : Option (List AV × List Rg × List Fate) :=
+/-- identical twins: cells off the diagonal of the comparison matrix that compare equal (the hypothesis `htwins` of
+`untouched_elements_paired_with_themselves` asks for none) -/
+def twins (m : List (List Res)) : Nat :=
+  let rows := m.zipIdx
+  rows.foldl (fun acc (row, i) => acc + ((row.zipIdx.filter (fun (r, k) => k != i && r.equal)).length)) 0
+
+/-- the declarations of a file snapshot with their regions and fates, whether the two lists have the same length, and the
+number of identical twins: `(decls, regions, fates, sameLength, twins)` -/
+def declsOf (old new : AV) : Option (List AV × List Rg × List Fate × Bool × Nat) :=
   match old.kids, new.kids with
   | [fo], [fn] =>
       let regs := fieldRegions { pos := old.pos, stop := old.stop } fo.kids
@@ -515,7 +522,7 @@ def declsOf (old new : AV) : Option (List AV × List Rg × List Fate) :=
       | some ((d, R), dn) =>
           let m := cmpRows d.kids dn.kids
           let es := (alignSlices m d.kids.length dn.kids.length).1
-          some (d.kids, elemRegions R none d.kids, fates es 0)
+          some (d.kids, elemRegions R none d.kids, fates es 0, d.kids.length == dn.kids.length, twins m)
       | none => none
   | _, _ => none
 
